@@ -243,7 +243,10 @@ def run(chk, facts):
         for a in idm["arms"]:
             rows[src(a["pat"])] = src(strip(a["body"])).replace(" ", "")
         keys = set(rows)
-        ok = keys == {"function::python::INIT", "other"} and rows["other"] == "String::from(other)" and rows["function::python::INIT"] == 'String::from("__init__")'
+        # the catch-all arm binds the name (whatever the binding is called) and returns it as a String
+        binder = next((src(a["pat"]) for a in idm["arms"] if a["pat"].get("k") == "pident"), None)
+        ok = binder is not None and keys == {"function::python::INIT", binder} and rows[binder] in (f"String::from({binder})", f"{binder}.to_string()", f"{binder}.to_owned()") \
+            and rows["function::python::INIT"] == 'String::from("__init__")'
         chk.ob("R-C17-3", "function-name-table", ok, "a function keeps its name; only the constructor is renamed to __init__" if ok else
                f"the function-name table is {rows}: a user function is emitted under another name", loc)
     except AnchorError as e:
@@ -394,6 +397,10 @@ def _option_map(e, scrutinee_name, fn=None):
     if e is None:
         return False, "missing"
     e = strip(e)
+    if e.get("k") == "if" and isinstance(e.get("c"), dict) and e["c"].get("k") == "let" and e.get("else") is not None and src(e["c"]["pat"]).replace(" ", "").startswith("Some("):
+        # `if let Some(x) = <scrutinee> { .. } else { .. }` (the spelling the facts are normalised to) is the two-armed match
+        e = {"k": "match", "e": e["c"]["e"], "arms": [{"pat": e["c"]["pat"], "guard": None, "body": e["then"]},
+                                                     {"pat": {"k": "ppath", "p": "None"}, "guard": None, "body": e["else"]}]}
     if e.get("k") == "match":
         sc = src(strip(e["e"]))
         if sc != scrutinee_name:
